@@ -38,10 +38,29 @@ CORR_ONLY = ["accuracy of the Lanczos approximation (GammaLn/Gamma vs mpmath.log
              ]
 ASSUMPTIONS = ["exp/log/sqrt/pow of libm approximate the real functions (the model takes them as parameters)",
                "classical: the power series and Legendre's continued fraction converge to P and Q (not formalised)"]
-TRUSTED = ["scipy.special.gammaincc (double, ~1e-13 here) as the vectorised reference of the fine a>100 scan at 1e-3; the worst "
+TRUSTED = ["translators/constants.py (regenerates lean/LpModel/C06/Constants.lean from the anchored numeric literals of the current source before every lake build; a missing anchor falls back to the committed default and is recorded in notes.pre_build.anchor_missing)",
+           "scipy.special.gammaincc (double, ~1e-13 here) as the vectorised reference of the fine a>100 scan at 1e-3; the worst "
            "point of every scan is re-evaluated with mpmath",
            "mpmath 1.3 at 50 digits (gamma, loggamma, gammainc, exp, log) as a validated-not-verified reference; "
            "self-test in finalize: P+Q=1, P(x,a)-P(x,a+1)=x^a e^-x/Gamma(a+1), loggamma(n+1)=log n!"]
+
+# ---------------------------------------------------------------------------------------------------
+# translator tie (DESIGN.md §4.5): the numeric literals of src/Special_Functions.cpp §2.1 the model depends on
+# ---------------------------------------------------------------------------------------------------
+
+def _constants_translator(verif):
+    import importlib.util, os
+    spec = importlib.util.spec_from_file_location("lp_constants_tr", os.path.join(verif, "translators", "constants.py"))
+    m = importlib.util.module_from_spec(spec)
+    spec.loader.exec_module(m)
+    return m
+
+
+def pre_build(c):
+    """regenerate lean/LpModel/C06/Constants.lean from the repository under check (called by check.py with
+    the lake lock held, before `lake build`); a missing anchor is recorded, never an alarm"""
+    return _constants_translator(c["verif"]).regenerate("C06", c["repo"], c["lean"])
+
 
 DBL_MIN = 2.2250738585072014e-308
 EPSF = 2.0 ** -53
